@@ -445,6 +445,11 @@ impl Message {
                     if !header.list {
                         return Err(DecoderError::Custom("Invalid format of header"));
                     }
+                    // The list of records is the last field: it must cover exactly the rest
+                    // of the payload.
+                    if header.payload_length != payload.len() {
+                        return Err(DecoderError::Custom("Invalid length of the records list"));
+                    }
                     let mut enr_list_rlp = Vec::<Enr<CombinedKey>>::new();
                     while !payload.is_empty() {
                         let node_header = Header::decode(&mut &payload[..])?;
